@@ -36,7 +36,7 @@ func (g *Gen) baseSelect() {
 	var fromText []byte
 	var fromLits []Literal
 	if hasFrom {
-		fromText, fromLits = g.capture(func() { g.tableRefs() })
+		fromText, fromLits = g.capture(func() { g.pushSlot("from"); g.tableRefs(); g.popSlot() })
 	}
 	g.pushSlot("select-list")
 	n := 1 + g.r.Intn(3)
@@ -290,7 +290,7 @@ func (g *Gen) unionStmt() {
 		arms = 3
 	}
 	for i := 0; i < arms; i++ {
-		g.unionArm++
+		g.pushSlot("union-arm")
 		if i > 0 {
 			g.sp()
 			g.kw("union")
@@ -319,39 +319,36 @@ func (g *Gen) unionStmt() {
 		default:
 			g.baseSelect()
 		}
-		g.unionArm--
+		g.popSlot()
 	}
-	g.unionArm++
+	g.pushSlot("union")
 	g.orderLimitLock(true)
-	g.unionArm--
+	g.popSlot()
 }
 
 // subquery writes a parenthesised select (or union) and restores scope afterwards.
 func (g *Gen) subquery() {
-	g.subDepth++
 	g.depth++
 	if g.depth > g.maxSeen {
 		g.maxSeen = g.depth
 	}
-	savedSlots := g.slots
-	g.slots = nil
+	g.pushSlot("sub")
 	g.w("(")
 	if g.p(8) {
-		g.unionArm++
+		g.pushSlot("union-arm")
 		g.baseSelect()
 		g.sp()
 		g.kw("union")
 		g.sp()
 		g.baseSelect()
-		g.unionArm--
+		g.popSlot()
 		g.feat("subquery-union")
 	} else {
 		g.selectStmt(false)
 	}
 	g.w(")")
-	g.slots = savedSlots
+	g.popSlot()
 	g.depth--
-	g.subDepth--
 	g.feat("subquery")
 }
 
@@ -633,23 +630,20 @@ func (g *Gen) insertStmt(kind string) {
 
 func (g *Gen) selectOrUnion() {
 	savedScope := g.scope
-	g.subDepth++
-	savedSlots := g.slots
-	g.slots = nil
+	g.pushSlot("insert-select")
 	if g.p(6) {
-		g.unionArm++
+		g.pushSlot("union-arm")
 		g.baseSelect()
 		g.sp()
 		g.kw("union")
 		g.sp()
 		g.baseSelect()
-		g.unionArm--
+		g.popSlot()
 		g.feat("insert-select-union")
 	} else {
 		g.selectStmt(false)
 	}
-	g.slots = savedSlots
-	g.subDepth--
+	g.popSlot()
 	g.scope = savedScope
 }
 
@@ -793,7 +787,9 @@ func (g *Gen) updateStmt() {
 	g.commentOpt()
 	var t Table
 	if g.p(8) && (g.d == MySQL || !g.o.Strict) {
+		g.pushSlot("update-tables")
 		g.tableRef(0)
+		g.popSlot()
 		t = g.scope[0]
 		g.feat("update-join")
 	} else {
@@ -820,7 +816,9 @@ func (g *Gen) updateStmt() {
 		g.sp()
 		g.kw("from")
 		g.sp()
+		g.pushSlot("update-from")
 		g.tableRefs()
+		g.popSlot()
 		g.feat("update-from")
 	}
 	if !g.p(5) {
@@ -867,7 +865,9 @@ func (g *Gen) deleteStmt() {
 		g.sp()
 		g.kw("from")
 		g.sp()
+		g.pushSlot("delete-tables")
 		g.tableRefs()
+		g.popSlot()
 		g.feat("delete-multi-targets")
 	case form == 1 && (g.d == MySQL || !g.o.Strict):
 		// DELETE FROM a, b USING refs WHERE
@@ -881,7 +881,9 @@ func (g *Gen) deleteStmt() {
 		g.sp()
 		g.kw("using")
 		g.sp()
+		g.pushSlot("delete-tables")
 		g.tableRefs()
+		g.popSlot()
 		g.feat("delete-using")
 	default:
 		g.kw("from")
